@@ -121,6 +121,12 @@ def canon_snapshot(snap):
         ms = sorted(set(ents[p][5] for p in ps))
         for p in ps:
             ents[p][5] = ms.index(ents[p][5])
+    # kernel-stamped private files (staging area, temp dirs): read mark and rank are
+    # clock-tick dependent and irrelevant to every property
+    for p in list(ents):
+        d = os.path.dirname(p)
+        if ents[p][0] == "f" and (d == "stage" or d.endswith(".kismet_temp") or d == "systmp"):
+            ents[p][4] = None; ents[p][5] = None
     return {k: tuple(v) for k, v in ents.items()}
 
 
@@ -137,7 +143,7 @@ def compare(lines, impl, model, what=("result", "snapshot", "trace"), ignore_pat
                 diffs.append("step %d %s: result class impl=%s model=%s" % (st, a[0], ca, cb)); continue
             for k in (result_keys or ("content", "off", "acc", "hit", "pop_calls", "old", "src_left", "fds", "chk", "est", "evicted")):
                 if da.get(k) != db.get(k):
-                    if k == "errno":
+                    if k == "chk" and not any(l.startswith("checker count") for l in lines):
                         continue
                     diffs.append("step %d %s: %s impl=%s model=%s" % (st, a[0], k, da.get(k), db.get(k)))
     if "snapshot" in what:
